@@ -440,9 +440,9 @@ type SegState struct {
 
 // verdict of the harness's decoder about a whole file.
 type verdict struct {
-	CRCOK    bool       // length >= 4 and the trailer is the CRC of everything before it
-	Struct   error      // nil: the body decodes strictly
-	Entries  []Entry    // when Struct == nil
+	CRCOK    bool    // length >= 4 and the trailer is the CRC of everything before it
+	Struct   error   // nil: the body decodes strictly
+	Entries  []Entry // when Struct == nil
 	Spans    []fieldSpan
 	State    []SegState // when Valid
 	BlobErr  error      // some blob is not decodable by the harness's roaring reader
@@ -452,7 +452,9 @@ type verdict struct {
 
 // Unjudged: intact checksum and framing, but a deleted-set blob that only the roaring library
 // can be asked about.  Acceptance or rejection of such a file is not judged (safety still is).
-func (v verdict) Unjudged() bool { return v.CRCOK && v.Struct == nil && (v.BlobErr != nil || v.NonCanon) }
+func (v verdict) Unjudged() bool {
+	return v.CRCOK && v.Struct == nil && (v.BlobErr != nil || v.NonCanon)
+}
 
 func judge(file []byte) verdict {
 	var v verdict
